@@ -94,6 +94,20 @@ func (g *genEnv) roundTrip(ns int64) {
 		g3 := exportCustom(c2, c2.DeliverCtx())
 		if !sameGenesis(g1, g3) {
 			next = c2
+			for _, m := range customModules {
+				if !bytes.Equal(g1[m], g3[m]) {
+					a, b := string(g1[m]), string(g3[m])
+					i := 0
+					for i < len(a) && i < len(b) && a[i] == b[i] {
+						i++
+					}
+					lo := i - 60
+					if lo < 0 {
+						lo = 0
+					}
+					return fmt.Sprintf("err #re-export-differs %s: ...%s <> ...%s", m, hxs(a[lo:min(len(a), i+40)]), hxs(b[lo:min(len(b), i+40)]))
+				}
+			}
 			return "err #re-export-differs"
 		}
 		next = c2
